@@ -161,7 +161,10 @@ def key_of(line, impl, model):
 def run_path(ctx):
     exe = vlib.go_build("./zz_verif/amppath")
     lines, kinds = gen_path(ctx)
-    ctx.correspond(exe, lines, kinds, label="amp-path", prop=prop, key_of=key_of, crosscheck=25)
+    ll, lk = gen_libmodels(ctx)
+    ctx.correspond(exe, lines + ll, kinds + lk, label="amp-path-and-library-models", crosscheck=40,
+                   prop=lambda l, i, m: (prop_lib if l.split(" ")[1] in LIB_OPS else prop)(l, i, m),
+                   key_of=lambda l, i, m: "library-model" if l.split(" ")[1] in LIB_OPS else key_of(l, i, m))
     # phase 2: the implementation's real encoder output (random padding) through both decoders
     rng = ctx.rng
     datas = [rand_data(rng) for _ in range(200 if ctx.tier == "quick" else 2000)]
@@ -170,7 +173,7 @@ def run_path(ctx):
         ctx.not_shown("amp-path: encraw phase failed: " + err[-300:])
         return
     l2 = ["%s dec %s %s" % (AREA, r, hx(d)) for r, d in zip(raw, datas)]
-    ctx.correspond(exe, l2, ["path-dec-of-real-encoding"] * len(l2), label="amp-path-real-encoding", prop=prop, key_of=key_of, crosscheck=4)
+    ctx.correspond(exe, l2, ["path-dec-of-real-encoding"] * len(l2), label="amp-path-real-encoding", prop=prop, key_of=key_of, crosscheck=0)
 
 
 # ------------------------------------------------------------------ cache URL cases
@@ -409,8 +412,6 @@ def run_cache(ctx):
     exe = vlib.go_build("./zz_verif/amppath")
     rng = ctx.rng
     thorough = ctx.tier == "thorough"
-    ll, lk = gen_libmodels(ctx)
-    ctx.correspond(exe, ll, lk, label="amp-cache-library-models", prop=prop_lib, key_of=lambda *a: "library-model", crosscheck=20)
     cases, kinds = [], []
     # every domain over a small alphabet (ASCII letter, hyphen, dot, 2-byte and 3-byte characters)
     for n in range(0, 6 if thorough else 5):
@@ -488,7 +489,8 @@ def gen_rdv(ctx):
     thorough = ctx.tier == "thorough"
     https, amps = [], []
     sizes = [0, 1, 2, 100, 1500, LIMIT - 1, LIMIT, LIMIT + 1, LIMIT + 2, 2 * LIMIT]
-    for broker in ["https://snowflake-broker.torproject.net/", "http://broker.example:8080/x/"]:
+    grid_brokers = ["https://snowflake-broker.torproject.net/", "http://broker.example:8080/x/"] if thorough else ["https://snowflake-broker.torproject.net/x/"]
+    for broker in grid_brokers:
         for front in ["", "front.example"]:
             for n in sizes:
                 for st in (200, 404):
@@ -497,14 +499,14 @@ def gen_rdv(ctx):
         n = rng.choice([0, 1, 5, 50, 300, 2000] * 3 + [LIMIT - 1, LIMIT, LIMIT + 1])
         resp = hx(rand_data(rng, n)) if n <= 300 else "g%d.%d" % (n, rng.randrange(256))
         https.append((rand_broker(rng), rand_front(rng), rand_data(rng), rand_status(rng), resp, "http-random"))
-    for broker in ["https://snowflake-broker.torproject.net/", "http://broker.example:8080/x/"]:
+    for broker in grid_brokers:
         for cache in [None, "https://cdn.ampproject.org/"]:
             for front in ["", "front.example"]:
                 for bodysize in [0, LIMIT - 1, LIMIT, LIMIT + 1, 2 * LIMIT]:
                     for st, loc in ((200, 0), (200, 1), (404, 0)):
                         amps.append((broker, cache, front, rand_data(rng), st, loc, "g%d.%d" % (rng.choice([0, 1, 700]), rng.randrange(256)), bodysize, "amp-limit-grid"))
                 # a response whose armor alone exceeds / just fits the limit
-                for n in (60000, 70000, 80000, 150000):
+                for n in ((60000, 70000, 80000, 150000) if thorough else (70000, 80000)):
                     amps.append((broker, cache, front, rand_data(rng), 200, 0, "g%d.%d" % (n, rng.randrange(256)), 0, "amp-large-response"))
     for _ in range(400 if not thorough else 4000):
         n = rng.choice([0, 1, 5, 50, 300, 2000])
